@@ -5,11 +5,11 @@ EXPLANATION = ("Bounded symbolic checking (engine S, REAL mode) of the one-dimen
                "Ackermannised value, every comparison the compiled code makes between objective values is a path split, so the claims hold for every objective; an evaluation budget inside the objective object bounds the exploration. "
                "The objective object asserts on each evaluation that its argument satisfies its (symbolic) constraint.")
 FUNCTIONS = ["OneDimensionOptimizationTools::{inwardBracketMinimum,bracketMinimum}", "NewtonOneDimension::{doInit,doStep}", "BrentOneDimension::{doInit (inward bracketing),doStep,optimize}", "NewtonBacktrackOneDimension::{doInit,doStep}",
-             "AbstractOptimizer::{init,step,optimize,autoParameter}", "AutoParameter::setValue"]
+             "DownhillSimplexMethod::{doInit,doStep,tryExtrapolation,getPSum,optimize,DSMStopCondition}", "AbstractOptimizer::{init,step,optimize,autoParameter}", "AutoParameter::setValue"]
 BOUNDS = ("inward bracketing: any real interval, 1-4 mesh intervals; outward bracketing: from [0,1] and [-3,-2], runs needing at most 5 objective evaluations; Newton 1-D: one step (up to 10 halvings) from any real starting point, "
           "unconstrained or with any closed-interval constraint under the automatic-constraint policy; Brent with inward bracketing from [0,1], any starting value in (0,1], 1 step (quick) / 2 steps (thorough), unconstrained or with any "
-          "constraint containing [0,1] under the automatic policy; backtracking line search: up to 3 steps, any negative slope; objective values in (-1e6,1e6)")
-OUTSIDE = ["multi-dimensional optimisers (BFGS, conjugate gradient, Powell, downhill simplex, coordinate-wise, meta-optimiser): path explosion", "convergence to the minimiser of convex quadratics", "golden-section whole runs (outward bracketing followed by steps with objective-dependent abscissae: measured out of reach)",
+          "constraint containing [0,1] under the automatic policy; backtracking line search: up to 3 steps, any negative slope; objective values in (-1e6,1e6); downhill simplex: two dimensions, two concrete starting points, evaluation limits 2..5 (thorough 7); quadratics a(x-m)^2+c with a in (0.01,100), any m (Brent: m in (0.02,0.98), interval [0,1], start 0.5, tolerances 0.05 and 0.2, at most 25 steps)")
+OUTSIDE = ["multi-dimensional optimisers other than the downhill simplex (BFGS, conjugate gradient, Powell, coordinate-wise, meta-optimiser: their line searches make the probed points rational functions of objective values; a coordinate-wise sweep was measured: no path finished within 12 evaluations)", "convergence on quadratics for the multi-dimensional optimisers and golden section", "golden-section whole runs (outward bracketing followed by steps with objective-dependent abscissae: measured out of reach)",
            "longer runs than the stated step/evaluation budgets", "paths on which the compiled code divides by an exactly zero real (IEEE infinities are not modelled; counted in the evidence)"]
 ASSUMPTIONS = BASE_ASSUMPTIONS + ["|a| is introduced as t>=0 and (t=a or t=-a) instead of a path split", "paths dividing by an exactly zero real are dropped and counted (coverage.paths_dropped_at_exact_division_by_zero)"]
 LEVEL_TEXT = ("Bounded symbolic checking with an uninterpreted objective: bracketing triples are ordered with the lowest value in the middle and carry f at their abscissae; a Newton step and Brent runs never end worse than they start, "
@@ -23,5 +23,7 @@ JOBS = [
     Job("newton-step", "C10.cpp", ["HLO=2", "HHI=2"], env=E, budget_s=300, spurious_possible=True, desc="one Newton step incl. the step-halving correction: descent, value = f(reported), objective left there, feasibility under the automatic policy"),
     Job("brent-2steps", "C10.cpp", ["HLO=3", "HHI=3", "EVALMAX=5"], fix="maxSteps=2", tiers=("thorough",), env=E, budget_s=3000, spurious_possible=True, desc="Brent, two steps"),
     Job("brent", "C10.cpp", ["HLO=3", "HHI=3", "EVALMAX=5"], fix="maxSteps=1", env=E, budget_s=400, spurious_possible=True, desc="Brent with inward bracketing: descent w.r.t. the starting value, value = f(reported), objective left there, never evaluated outside the constraint"),
-    Job("backtracking", "C10.cpp", ["HLO=5", "HHI=5"], env=E, budget_s=200, spurious_possible=True, desc="backtracking line search: value = f(reported step length), step in [0,1], stops at or below the starting value"),
+    Job("downhill-simplex", "C10.cpp", ["HLO=6", "HHI=6", "DSMAX=5"], thorough_defines=["HLO=6", "HHI=6", "DSMAX=7"], env=E, budget_s=400, thorough_budget_s=3000, spurious_possible=True, desc="downhill simplex in two dimensions on an uninterpreted objective R^2->R, whole runs with an evaluation limit of 2..5 (7) from two concrete starting points: descent, value = f(reported), objective left there, evaluation budget"),
+    Job("quadratic-convergence", "C10.cpp", ["HLO=7", "HHI=7"], env=E, budget_s=400, replay_tol=1e-9, desc="a(x-m)^2+c with symbolic a>0, m, c: Newton 1-D from any start ends exactly on the minimiser; Brent (inward bracketing of [0,1], tolerance 0.05 / 0.2) converges and stops within its tolerance of the minimiser"),
+    Job("backtracking", "C10.cpp", ["HLO=9", "HHI=9"], env=E, budget_s=200, spurious_possible=True, desc="backtracking line search: value = f(reported step length), step in [0,1], stops at or below the starting value"),
 ]
